@@ -132,8 +132,8 @@ def same_stack(a, b):
 
 # -- histories ---------------------------------------------------------------------------------
 
-HD = [{"X-A": "1"}, {"x-a": "2"}, {"X-B": 3, "User-Agent": "ua"}]
-EVENTS = ["E0", "E1", "E2", "L", "X", "C", "N", "B"]
+HD = [{"X-A": "1"}, {"x-a": "2"}, {"X-B": 3, "User-Agent": "ua"}, {"X-A": 1}, {"X-A": True}]  # 1 == True, yet str() differs
+EVENTS = ["E0", "E1", "E2", "E3", "E4", "L", "X", "C", "N", "B"]
 
 
 class Boom(Exception):
@@ -240,7 +240,7 @@ META = {
     "behind the real HTTPConnection; reference merge by recency",
     "rule": "stacks: constructor headers (none or one of 17 dictionaries; thorough 30) + 0..2 nested blocks (thorough ..3), every combination with "
     "repetition, x {call, notification, batch}; dictionaries cover case variants of one name, non-string and falsy values, User-Agent and the protected "
-    "names in several spellings; histories: every event sequence of length <=5 (thorough <=6) over {enter block d0/d1/d2, leave normally, leave by "
+    "names in several spellings; histories: every event sequence of length <=5 (thorough <=6) over {enter block d0..d4 (two of them equal under == but with different str() values), leave normally, leave by "
     "exception, call, notify, batch} with nesting <=3, with and without constructor headers; every case non-trivial",
     "bounds": {"quick": {"stack_depth": 3, "dicts": 17, "history_depth": 5}, "thorough": {"stack_depth": 4, "dicts": 30, "history_depth": 6}},
     "assumptions": [
